@@ -16,6 +16,7 @@ GENERATORS = {
     "LagOffset_gen": "translator.gen_lagoffset",
     "Derivable_gen": "translator.gen_derivable",
     "NativeFields_gen": "translator.gen_native",
+    "Refresh_gen": "translator.gen_refresh",
 }
 
 
